@@ -4,7 +4,7 @@ CONSTANTS
   JAllowFallsThrough = FALSE
   TBlockInverted = FALSE
   TNo172 = FALSE
-  Devs = {"ipv6-literal-cut-at-colon", "list-items-compared-as-typed", "empty-allow-list-value-routes-nothing"}
+  Devs = {"names-never-resolved", "ipv6-literal-cut-at-colon", "list-items-compared-as-typed"}
   Tier = "quick"
   Impl = "ts"
 SPECIFICATION Spec
